@@ -28,7 +28,7 @@ ASSUMPTIONS = ["in-memory kernel fidelity (EOF/reset/EPIPE semantics)", "a reque
 PROBES = ["fault:recv-eof", "fault:recv-rst", "fault:send-epipe", "fault:send-rst", "fault:poll-eof", "c11:close-in-handler",
           "c11:both-close"]
 
-WORKLOADS = ("sync", "async", "nested", "refs", "big")
+WORKLOADS = ("sync", "async", "nested", "refs", "big", "twothreads")
 _CASES = None
 KINDS = {"recv": ("eof", "rst"), "send": ("epipe", "rst"), "poll": ("eof", "rst")}
 
@@ -373,6 +373,77 @@ def run_one(choices, params):
             raise core.Violation("outcome/" + type(e).__name__, "request after close raised %s: %s" % (type(e).__name__, e))
         return True
 
+    def main_two(sim, k):
+        """a serving thread and a requesting thread share connection A; the connection ends under the serving thread's read;
+        the request blocked waiting (no expiry, or a long one) must fail with EOFError, not hang"""
+        class SvcA(rpyc.Service):
+            def on_disconnect(self, conn):
+                hooks["A_d"] += 1
+
+        class SvcB(rpyc.Service):
+            def on_disconnect(self, conn):
+                hooks["B_d"] += 1
+
+            def exposed_hang(self, tok):
+                sim.sleep(100000)
+                return tok
+
+            def exposed_echo(self, tok):
+                return ("echo", tok)
+        ca, cb, ledger = pair.connect_pair(k, SvcA(), SvcB(), cfg_a={"sync_request_timeout": None}, cfg_b={}, tap=False)
+        srvb = sim.spawn(cb.serve_all, _name="B.serve_all")
+        root = ca.root
+        hang = rpyc.async_(root.hang)
+        expiry = w.pick((None, None, 500))
+        t1 = sim.spawn(ca.serve_all, _name="A.serve_all")
+        res = {}
+
+        def requester():
+            try:
+                r = hang(1)
+                if expiry is not None:
+                    r.set_expiry(expiry)
+                r.wait()
+                res["out"] = "returned"
+            except EOFError:
+                res["out"] = "EOFError"
+            except TimeoutError:
+                res["out"] = "timeout"
+            except Exception as e:
+                res["out"] = type(e).__name__ + ": " + str(e)[:80]
+            res["t"] = sim.now
+        t2 = sim.spawn(requester, _name="A.requester")
+        sim.sleep(w.pick((0.0, 0.25, 1.0)))
+        how = w.pick(("eof", "rst", "peer-close"))       # (a local close() from a third thread is the excluded second-thread close)
+        t_end = sim.now
+        info["closefired"] = True
+        a_desc = [d for d in (so._d for so in k.fds.values()) if d.tag == "A"][0]
+        if how in ("eof", "rst"):
+            k.kill_connection(a_desc, how, "director")
+        elif how == "peer-close":
+            b_desc = [d for d in (so._d for so in k.fds.values()) if d.tag == "B"][0]
+            k.kill_connection(b_desc, "eof", "director: peer process gone")
+        else:
+            sim.spawn(lambda: ca.close(), _name="A.closer")
+        info["ops"].append(("end", how))
+        if not sim.block(lambda: "out" in res, 60, "wait-requester"):
+            raise core.Violation("hang", "a request blocked waiting in a second thread is still blocked 60 virtual s after the connection ended "
+                                 "(%s); requester blocked in %r, serving thread %s" % (how, t2.what, "done" if t1.state == core.DONE else t1.what))
+        if res["out"] not in ("EOFError",):
+            raise core.Violation("outcome/" + res["out"].split(":")[0], "pending request of the second thread ended with %r after %s" % (res["out"], how))
+        if res["t"] - t_end > 5.0:
+            raise core.Violation("late-eof", "pending request failed %.1f virtual s after the connection ended" % (res["t"] - t_end))
+        sim.block(lambda: t1.state == core.DONE, 30, "wait-A-serving")
+        if not ca.closed:
+            raise core.Violation("not-closed", "A's serving thread met the end of the connection and A is not closed")
+        if hooks["A_d"] != 1:
+            raise core.Violation("hook-count/%d" % hooks["A_d"], "A's disconnect hook ran %d times" % hooks["A_d"])
+        del root, hang
+        return True
+
+    if wl == "twothreads":
+        main = main_two
+        plan = None
     out, sim = H.simulate(choices, main, strategy=strat, netcfg=cfg, step_cap=400000)
     if out["kind"] == "deadlock":
         out = {"kind": "violation", "cls": "hang", "detail": "deadlock: %s" % (H.blocked_in(out["report"]),), "sig": None,
@@ -380,8 +451,11 @@ def run_one(choices, params):
     elif out["kind"] == "cap":
         out = {"kind": "violation", "cls": "hang", "detail": "step cap, livelock=%s" % out.get("livelock"), "sig": None,
                "report": out["report"]}
-    if out["kind"] == "ok" and sim.task_errors:
-        out = {"kind": "violation", "cls": "outcome/" + sim.task_errors[0][1], "detail": "a task died: %r" % (sim.task_errors,), "sig": None}
+    # a serving thread whose stream is closed under it by the requesting thread's failed write ends with select.error
+    # (poll on a closed descriptor): the connection is closed and the hook has run, which is what is judged
+    terrs = [e for e in sim.task_errors if not (wl == "twothreads" and e[0] == "A.serve_all" and e[1] in ("OSError", "error"))]
+    if out["kind"] == "ok" and terrs:
+        out = {"kind": "violation", "cls": "outcome/" + terrs[0][1], "detail": "a task died: %r" % (sim.task_errors,), "sig": None}
     st = sim.stats
     fired = sum(v for kk, v in st.items() if kk.startswith("fault:")) > 0
     states = []
